@@ -4,7 +4,8 @@ import sys
 TOOL = 3
 _seen = set()
 _active = False
-REPO_PREFIX = '/repo/'
+import os
+REPO_PREFIX = os.environ.get('VERIF_REPO', '/repo').rstrip('/') + '/'
 
 
 def _cb(code, offset):
